@@ -478,8 +478,38 @@ func (e *Engine) execReturn(s *ast.ReturnStmt, st *State) *State {
 			}
 		}
 	}
+	if fr.parent == nil && fr.contract != nil && len(fr.contract.Hints) > 0 {
+		// function-level split seeds are evaluated at each return site where their variables are in scope
+		var hs []*Clause
+		for _, h := range fr.contract.Hints {
+			if e.inScope(h.Expr, st) {
+				hs = append(hs, h)
+			}
+		}
+		e.hints(st, hs)
+	}
 	fr.returns = append(fr.returns, st)
 	return nil
+}
+
+// inScope reports whether every local variable mentioned by x has a value in st.
+func (e *Engine) inScope(x ast.Expr, st *State) bool {
+	ok := true
+	ast.Inspect(x, func(n ast.Node) bool {
+		id, isID := n.(*ast.Ident)
+		if !isID {
+			return true
+		}
+		v, isVar := e.pk.Info.Uses[id].(*types.Var)
+		if !isVar || v.IsField() || v.Parent() == nil || v.Parent() == v.Pkg().Scope() {
+			return true
+		}
+		if _, has := st.vars[v]; !has {
+			ok = false
+		}
+		return true
+	})
+	return ok
 }
 
 func (e *Engine) execSwitch(s *ast.SwitchStmt, st *State, label string) *State {
@@ -1229,7 +1259,7 @@ func (e *Engine) execFor(s *ast.ForStmt, st *State, label string) *State {
 	}
 	if end != nil {
 		if ls != nil {
-			e.hints(end, ls.Hints)
+			_ = end // hints are seeded at the loop head only
 		}
 		e.checkInvariants(end, ls, ord, "inv-pres", s.Pos())
 		if v0 != "" {
@@ -1408,7 +1438,7 @@ func (e *Engine) execRange(s *ast.RangeStmt, st *State, label string) *State {
 		end.vars[hidden] = Value{e.nameTerm("k", e.isort(), next), it}
 		bindKey(end)
 		if ls != nil {
-			e.hints(end, ls.Hints)
+			_ = end // hints are seeded at the loop head only
 		}
 		e.checkInvariants(end, ls, ord, "inv-pres", s.Pos())
 		e.canary(end, fmt.Sprintf("loop%d-end", ord), s.Pos())
